@@ -6,6 +6,7 @@ import (
 	"os"
 	"os/exec"
 	"path/filepath"
+	"sort"
 	"strings"
 	"sync"
 	"time"
@@ -185,7 +186,10 @@ func Discharge(o *Obligation, dir string, timeout time.Duration, thorough bool) 
 	case nSat > 0:
 		v.Status = "failed"
 		v.By = firstWith(answers, "sat")
-		v.Model = modelOf(answers)
+		v.Model = counterModel(file, script, timeout)
+		if v.Model == "" {
+			v.Model = modelOf(answers)
+		}
 	default:
 		v.Status = "undischarged"
 		// model search without the quantified assumptions (candidate only; replay decides)
@@ -266,4 +270,68 @@ func sanitizeFile(s string) string {
 		out = out[:180]
 	}
 	return out
+}
+
+// counterModel asks the newest z3 for the values of the obligation's input symbols (parameters `in_*`, loop-head
+// values `loop_*`, call results) in a counterexample: the part of the model a human can map back to the code.
+func counterModel(file, script string, timeout time.Duration) string {
+	var names []string
+	seen := map[string]bool{}
+	for _, ln := range strings.Split(script, "\n") {
+		if !strings.HasPrefix(ln, "(declare-fun ") && !strings.HasPrefix(ln, "(declare-const ") {
+			continue
+		}
+		f := strings.Fields(ln)
+		if len(f) < 3 {
+			continue
+		}
+		n := f[1]
+		// constants only: (declare-fun name () Sort)
+		if strings.HasPrefix(ln, "(declare-fun ") && !strings.Contains(ln, " () ") {
+			continue
+		}
+		if seen[n] {
+			continue
+		}
+		if strings.HasPrefix(n, "in_") || strings.HasPrefix(n, "loop_") || strings.Contains(n, "_r0") || strings.Contains(n, "_r1") || strings.HasPrefix(n, "|in_") {
+			seen[n] = true
+			names = append(names, n)
+		}
+	}
+	if len(names) == 0 {
+		return ""
+	}
+	// parameters first, then loop-head values, then call results
+	rank := func(n string) int {
+		switch {
+		case strings.HasPrefix(n, "in_") || strings.HasPrefix(n, "|in_"):
+			return 0
+		case strings.HasPrefix(n, "loop_"):
+			return 1
+		}
+		return 2
+	}
+	sort.SliceStable(names, func(i, j int) bool { return rank(names[i]) < rank(names[j]) })
+	if len(names) > 60 {
+		names = names[:60]
+	}
+	f2 := strings.TrimSuffix(file, ".smt2") + ".model.smt2"
+	body := script + "(get-value (" + strings.Join(names, " ") + "))\n"
+	if err := os.WriteFile(f2, []byte(body), 0o644); err != nil {
+		return ""
+	}
+	t := timeout
+	if t > 10*time.Second {
+		t = 10 * time.Second
+	}
+	for _, sp := range solverSpecs {
+		if sp.name != "z3-5.1.0" {
+			continue
+		}
+		a := runSolver(context.Background(), sp, f2, t)
+		if a.Status == "sat" {
+			return a.Output
+		}
+	}
+	return ""
 }
